@@ -226,6 +226,9 @@ pub enum PolicyKind {
     Sticky { num: u32 },
     /// no preemption, random task order
     Serial,
+    /// systematic enumeration of the schedules of a small scenario: after the forced prefix the
+    /// lowest enabled task runs; the enabled sets are recorded so that the caller can branch
+    Enumerate,
 }
 
 #[derive(Clone, Debug, Serialize, Deserialize, PartialEq)]
@@ -289,6 +292,8 @@ struct St {
     events: Vec<String>,
     /// (task, lock name, mode) per grant: the interleaving fingerprint
     grants: Vec<(u8, u8, u8)>,
+    /// enabled tasks at every decision (Enumerate policy only)
+    branching: Vec<Vec<u32>>,
 }
 
 pub struct Sched {
@@ -304,6 +309,7 @@ pub struct SchedOutcome {
     pub probes: SchedProbes,
     pub events: Vec<String>,
     pub grants: Vec<(u8, u8, u8)>,
+    pub branching: Vec<Vec<u32>>,
 }
 
 impl Sched {
@@ -338,6 +344,7 @@ impl Sched {
                 budget,
                 events: Vec::new(),
                 grants: Vec::new(),
+                branching: Vec::new(),
             }),
             cvs: (0..ntasks).map(|_| Condvar::new()).collect(),
             ctl: Condvar::new(),
@@ -424,6 +431,10 @@ impl Sched {
 
     fn decide(st: &mut St, cands: &[usize]) -> Option<usize> {
         st.probes.decisions += 1;
+        let enumerate = st.policy.kind == PolicyKind::Enumerate;
+        if enumerate {
+            st.branching.push(cands.iter().map(|c| *c as u32).collect());
+        }
         if let Some(f) = st.forced.as_mut() {
             return match f.pop_front() {
                 Some(c) if cands.contains(&(c as usize)) => Some(c as usize),
@@ -434,6 +445,7 @@ impl Sched {
                     ));
                     None
                 }
+                None if enumerate => Some(cands[0]),
                 None => {
                     // trace exhausted: no further preemption
                     match st.last {
@@ -463,6 +475,7 @@ impl Sched {
                 Some(l) if cands.contains(&l) => l,
                 _ => cands[st.rng.below(cands.len())],
             },
+            PolicyKind::Enumerate => cands[0],
         };
         Some(c)
     }
@@ -590,6 +603,7 @@ impl Sched {
             probes: st.probes.clone(),
             events: st.events.clone(),
             grants: st.grants.clone(),
+            branching: st.branching.clone(),
         }
     }
 
